@@ -75,7 +75,7 @@ def _spec(draw):
         z = [[v if v != 0 else 0.5 for v in row] for row in z]
     U = draw(gen.mat(gen.real(-3, 3), n_ids, base['n_dim'])) if gen.chance(draw, 0.5) else None
     oor = None
-    if gen.chance(draw, 0.06):
+    if gen.chance(draw, 0.1):
         oor = draw(st.sampled_from([[npd, 0], [0, base['n_dim']], [-1, 0], [0, -1]]))
     direct = draw(st.sampled_from([None, None, 'list', 'array']))
     return dict(pop=pop, n_ids=n_ids, theta=theta, z=z, cov=cov, U=U, oor=oor, direct=direct, int_theta=int_theta)
@@ -147,8 +147,6 @@ def classify(spec):
 
 def nontrivial(spec):
     pop = spec['pop']
-    if spec['oor']:
-        return False
     sel = pop['sel']
     nsel = len(ref.cov_selection(pop, spec['n_ids']))
     t = [tuple(p) for p in sel] if sel is not None else []
@@ -176,18 +174,6 @@ def check(case):
     sel = ref.cov_selection(pop, n_ids)
     beta = theta[nb:].reshape(len(sel), n_cov)
 
-    if s['oor']:
-        with case.clause('out_of_range'):
-            m = ref.build_pop(dict(pop, sel=None), None, n_ids)
-            bad = ([list(p) for p in pop['sel']] if pop['sel'] else []) + [s['oor']]
-            try:
-                m.set_population_parameters(bad)
-            except IndexError:
-                pass
-            else:
-                case.fail('accepted', 'out-of-range selection %r was accepted' % (bad,))
-        return
-
     with case.clause('construct'):
         m = ref.build_pop(pop, None, n_ids)
         m.set_n_ids(n_ids)
@@ -195,6 +181,22 @@ def check(case):
         und.set_n_ids(n_ids)
     if case.fails:
         return
+
+    if s['oor']:
+        # an out-of-range selection is rejected, and the rejected call changes nothing: every clause below then
+        # runs on the model that saw it
+        with case.clause('out_of_range'):
+            bad = ([list(p) for p in pop['sel']] if pop['sel'] else []) + [s['oor']]
+            for target, label in ((ref.build_pop(dict(pop, sel=None), None, n_ids), 'a model with the default selection'),
+                                  (m, 'the model under test')):
+                try:
+                    target.set_population_parameters(bad)
+                except IndexError:
+                    pass
+                else:
+                    case.fail('accepted', 'out-of-range selection %r was accepted by %s' % (bad, label))
+        if case.fails:
+            return
 
     # vartheta_i by hand (the property's formula)
     P0 = theta[:nb].reshape(npd, n_dim)
